@@ -24,7 +24,7 @@ pub fn def() -> PropertyDef {
         extra: no_extra,
         replay_custom,
         assumptions: &[
-            "forms compared bitwise: &[String], &[&str], &[&str; N] (N in {1,2,3,5,8,13}), Vec<String>, Vec<Label> (parsed by the harness with jlabel), the same lines with blank lines inserted, and with '<start> <end> ' time stamps while alignment is off",
+            "forms compared bitwise (alignment off, and again with alignment on for the textual forms): &[String], &[&str], &[&str; N] (N in {1,2,3,5,8,13}), Vec<String>, Vec<Label> (parsed by the harness with jlabel), the same lines with blank lines inserted, and with '<start> <end> ' time stamps while alignment is off",
             "corrupted text: the call must return Ok or Err(EngineError::LabelError), never panic; with alignment on only finite times below 10 minutes are used (non-finite times with alignment on are outside the property)",
         ],
     }
@@ -70,7 +70,7 @@ impl Prop for InputForms {
         12000
     }
     fn cases(&self, tier: Tier) -> u32 {
-        tier.pick(3_000, 50_000)
+        tier.pick(1_200, 40_000)
     }
     fn decode(&self, t: &mut Tape, _: Tier) -> FormsCase {
         let n = if t.chance(0.7) { *t.pick(&[1usize, 2, 3, 5, 8, 13]) } else { t.below(14) };
@@ -125,6 +125,35 @@ impl Prop for InputForms {
         let timed = timed_lines(lines, &c.times);
         cmp("lines with time stamps (alignment off)", &run("timed", engine.synthesize(timed.as_slice()))?)?;
         cmp("Vec<String> with time stamps", &run("timed vec", engine.synthesize(timed.clone()))?)?;
+        // with alignment ON the time stamps matter, and every textual form must still agree
+        let mut aligned = engine.clone();
+        aligned.condition.set_phoneme_alignment_flag(true);
+        let frames_on = match catch(|| aligned.generator(timed.as_slice()).map(|g| crate::engine_util::trajectories(&g).lf0.len() * aligned.condition.get_fperiod())) {
+            Ok(Ok(n)) => n,
+            Ok(Err(e)) => fail!("generator", "{}", e),
+            Err(p) => fail!(p.signature(), "{}", p.msg),
+        };
+        if frames_on <= 500_000 {
+            let ref_on = run("&[String] (alignment on)", aligned.synthesize(timed.as_slice()))?;
+            let cmp_on = |what: &str, w: &[f64]| -> Result<(), Failure> {
+                if let Some(i) = bits_equal(w, &ref_on) {
+                    return Err(Failure::new("form-differs", format!("with alignment on, {} gives a different waveform than &[String] (first difference at sample {}, lengths {} vs {})", what, i, w.len(), ref_on.len())));
+                }
+                Ok(())
+            };
+            let tstrs: Vec<&str> = timed.iter().map(|s| s.as_str()).collect();
+            cmp_on("&[&str]", &run("&[&str] on", aligned.synthesize(tstrs.as_slice()))?)?;
+            cmp_on("Vec<String>", &run("Vec<String> on", aligned.synthesize(timed.clone()))?)?;
+            if let Some(r) = synth_array(&aligned, &timed) {
+                cmp_on("&[&str; N]", &run("&[&str; N] on", r)?)?;
+            }
+            let mut tb = timed.clone();
+            for p in pos.iter().rev() {
+                tb.insert((*p).min(tb.len()), String::new());
+            }
+            cmp_on("lines with blank lines", &run("blank lines on", aligned.synthesize(tb.clone()))?)?;
+            cmp_on("slice with blank lines", &run("blank lines slice on", aligned.synthesize(tb.as_slice()))?)?;
+        }
         let mut rep = Report::new();
         let has_times = c.times.iter().any(|t| t.is_some());
         rep.nontrivial = lines.len() >= 2 && (!c.blank_positions.is_empty() || has_times);
